@@ -83,6 +83,8 @@ type FnCtx struct {
 	label    string // name used in obligation names
 	aborted  string
 	divw     map[string]string
+	curLoopFrame  []*frame
+	curLoopBlocks map[*ssa.BasicBlock]bool
 }
 
 func (c *FnCtx) note(s string) { c.notes[s] = true }
@@ -134,7 +136,7 @@ func (c *FnCtx) heapGet(h *HeapView, key, sort string) string {
 		}
 		if l.ref == "" {
 			a = c.fresh("Hh "+key, arraySort(key, sort))
-		} else if strings.HasPrefix(key, "[]") || strings.HasPrefix(key, "map[") {
+		} else if strings.HasPrefix(key, "[]") || (strings.HasPrefix(key, "map[") && !strings.HasSuffix(key, "#len")) {
 			inner := "(Array Int " + sort + ")"
 			if strings.HasPrefix(key, "map[string]") {
 				inner = "(Array String " + sort + ")"
@@ -157,7 +159,7 @@ func (c *FnCtx) havoc(h *HeapView, prefix, ref string) {
 		srt := c.heapSort[k]
 		if ref == "" {
 			h.m[k] = c.fresh("Hh "+k, arraySort(k, srt))
-		} else if strings.HasPrefix(k, "[]") || strings.HasPrefix(k, "map[") {
+		} else if strings.HasPrefix(k, "[]") || (strings.HasPrefix(k, "map[") && !strings.HasSuffix(k, "#len")) {
 			inner := "(Array Int " + srt + ")"
 			if strings.HasPrefix(k, "map[string]") {
 				inner = "(Array String " + srt + ")"
@@ -375,7 +377,7 @@ func (c *FnCtx) assumeRanges(p *Path, v Val, t types.Type) {
 			p.assume(fmt.Sprintf("(or (= %s TZERO) (>= %s 0))", v.T, v.T))
 		}
 	case KSlice:
-		p.assume(fmt.Sprintf("(and (<= 0 %s) (<= %s %s))", v.Len, v.Len, v.Cap))
+		p.assume(fmt.Sprintf("(and (<= 0 %s) (<= %s %s) (< %s 4611686018427387904))", v.Len, v.Len, v.Cap, v.Cap))
 		p.assume(fmt.Sprintf("(=> (= %s 0) (= %s 0))", v.T, v.Cap))
 		p.assume(fmt.Sprintf("(>= %s 0)", v.T))
 	case KPtr, KMap:
@@ -440,6 +442,48 @@ func (c *FnCtx) load(p *Path, h *HeapView, ptr Val, t types.Type) Val {
 // loadFacts: type-range facts about a loaded value (sound: every stored value had the type).
 func (c *FnCtx) loadFacts(p *Path, v Val, t types.Type) {
 	c.assumeRanges(p, v, t)
+}
+
+// closedFacts: the entry heap is closed — every reference stored in it denotes an object allocated before
+// the function was entered (instance of that fact at the location being read).
+func (c *FnCtx) closedFacts(p *Path, ptr Val, t types.Type) {
+	base := c.addrKey(ptr)
+	if strings.HasPrefix(base, "cell:") || base == "array" {
+		return
+	}
+	for _, l := range leavesOf(t) {
+		if l.Sort != "Int" {
+			continue
+		}
+		isRef := false
+		switch {
+		case strings.HasSuffix(l.Path, "#base") || strings.HasSuffix(l.Path, "#ival"):
+			isRef = true
+		case strings.HasSuffix(l.Path, "#len") || strings.HasSuffix(l.Path, "#cap") || strings.HasSuffix(l.Path, "#tag"):
+		default:
+			k := kindOf(l.Typ)
+			isRef = k == KPtr || k == KMap
+		}
+		if !isRef {
+			continue
+		}
+		key := base + l.Path
+		k2 := key + "@" + ptr.T + "@" + ptr.Idx
+		if p.inb["closed:"+k2] {
+			continue
+		}
+		p.inb["closed:"+k2] = true
+		e0 := c.entryArray(key, "Int")
+		var t0 string
+		if ptr.Idx != "" {
+			t0 = fmt.Sprintf("(select (select %s %s) %s)", e0, ptr.T, ptr.Idx)
+		} else {
+			t0 = fmt.Sprintf("(select %s %s)", e0, ptr.T)
+		}
+		al := sym("H0 $alloc")
+		c.declare(al, "(Array Int Bool)")
+		p.assume(fmt.Sprintf("(or (<= %s 1) (select %s %s))", t0, al, t0))
+	}
 }
 
 func (c *FnCtx) store(p *Path, h *HeapView, ptr Val, v Val, t types.Type) {
@@ -751,6 +795,22 @@ func (c *FnCtx) execSimple(p *Path, ins ssa.Instruction) {
 	case *ssa.Alloc:
 		et := x.Type().Underlying().(*types.Pointer).Elem()
 		r := c.alloc(p, "new_"+x.Name())
+		if at, ok := et.Underlying().(*types.Array); ok {
+			// array object = a backing store; elements live in the element heap like slice elements
+			for _, l := range leavesOf(at.Elem()) {
+				key := elemKey(at.Elem()) + l.Path
+				arr := c.heapGet(&p.heap, key, l.Sort)
+				z := "0"
+				if l.Sort == "Bool" {
+					z = "false"
+				} else if l.Sort == "String" {
+					z = "\"\""
+				}
+				p.heap.m[key] = fmt.Sprintf("(store %s %s ((as const (Array Int %s)) %s))", arr, r, l.Sort, z)
+			}
+			fr.regs[x] = Val{K: KPtr, T: r, Typ: x.Type(), Key: "array"}
+			return
+		}
 		ptr := Val{K: KPtr, T: r, Typ: x.Type(), Key: pointeeKey(et)}
 		if kindOf(et) != KStruct || !isOpaqueExternal(et) {
 			c.store(p, &p.heap, ptr, zeroVal(et), et)
@@ -773,6 +833,13 @@ func (c *FnCtx) execSimple(p *Path, ins ssa.Instruction) {
 	case *ssa.IndexAddr:
 		base := c.val(p, x.X)
 		iv := c.val(p, x.Index)
+		if pt, ok := x.X.Type().Underlying().(*types.Pointer); ok {
+			if at, ok := pt.Elem().Underlying().(*types.Array); ok && base.K == KPtr {
+				c.checkIndex(p, iv.T, fmt.Sprint(at.Len()), "array index")
+				fr.regs[x] = Val{K: KPtr, T: base.T, Idx: iv.T, Typ: x.Type(), Key: elemKey(at.Elem())}
+				return
+			}
+		}
 		if base.K != KSlice {
 			c.note("IndexAddr on non-slice in " + fr.fn.Name())
 			fr.regs[x] = c.symbolic(p, x.Name(), x.Type())
@@ -923,6 +990,7 @@ func (c *FnCtx) execUnOp(p *Path, x *ssa.UnOp) {
 		c.permCheck(p, a, false, x.Pos())
 		v := c.load(p, &p.heap, a, x.Type())
 		c.loadFacts(p, v, x.Type())
+		c.closedFacts(p, a, x.Type())
 		if a.Origin != "" {
 			v.Origin = a.Origin
 		}
@@ -1327,6 +1395,17 @@ func (c *FnCtx) sliceOp(p *Path, x *ssa.Slice) {
 		c.oblige(p, "safe", "slice_bounds", fmt.Sprintf("(and (<= 0 %s) (<= %s %s) (<= %s (str.len %s)))", lo, lo, hi, hi, v.T), "string slice", nil)
 		fr.regs[x] = Val{K: KStr, T: fmt.Sprintf("(str.substr %s %s (- %s %s))", v.T, lo, hi, lo), Typ: x.Type()}
 		return
+	}
+	if pt, ok := x.X.Type().Underlying().(*types.Pointer); ok && v.K == KPtr {
+		if at, ok := pt.Elem().Underlying().(*types.Array); ok && x.Low == nil {
+			n := fmt.Sprint(at.Len())
+			hi := n
+			if x.High != nil {
+				hi = c.val(p, x.High).T
+			}
+			fr.regs[x] = Val{K: KSlice, T: v.T, Len: hi, Cap: n, Typ: x.Type()}
+			return
+		}
 	}
 	if v.K != KSlice {
 		c.note("slice of non-slice abstracted in " + fr.fn.Name())
